@@ -182,7 +182,9 @@ def cmp_c01(case, i, m):
     if i.get("outcome") != "ok":
         return ("impl-" + str(i.get("outcome")), f"declarative profile: real code gave {i.get('outcome')}: {str(i.get('err'))[:300]}")
     real = i["reported"]
-    classical = case["stream"] in ("tt", "graphcount", "scopes")
+    # the classical reading is the specification wherever the translator model agrees with it on this very case (per-value atoms
+    # are classical on single-valued properties: C01Atoms), and in the streams that only use classical atoms
+    classical = case["stream"] in ("tt", "graphcount", "scopes") or m["reported"] == m["implReported"]
     if classical and m["reported"] != m["implReported"]:
         return ("~model-self", "DNF model and classical meaning disagree on a classical case (compile_correct contradicted?)")
     if classical and real != m["reported"]:
@@ -502,6 +504,8 @@ def cmp_c03(case, i, m):
         return ("conforms", f"conforms={i['conforms']} but the report has {len(viol)} Violation results")
     if i["hasResult"] != (len(i["results"]) > 0):
         return ("result-key", f"result key present={i['hasResult']} with {len(i['results'])} results")
+    if isinstance(m.get("dateCreated"), str):
+        m = dict(m, dateCreated=re.sub(r"\.\d+(?=Z|[+-]\d\d:\d\d$)", "", m["dateCreated"]))   # whole seconds: the fraction is cut
     for k in C03_FIELDS:
         if i.get(k) != m.get(k):
             return (k, f"report field {k}: real {str(i.get(k))[:200]} vs model {str(m.get(k))[:200]} (levels {case['levels']}, profile name {case['profileName']!r}, config {case['config']})")
